@@ -5,6 +5,8 @@ import (
 	"fmt"
 	"io"
 	"net"
+	"net/http"
+	"sync"
 	"testing"
 	"time"
 
@@ -16,6 +18,29 @@ import (
 
 	"verifharness/hx"
 )
+
+// One tcp-dynamic loop per process: main.go's loop never ends, and two of them (from two
+// startServers calls) would both try to open a listener for the same new port - the loser calls
+// exit.Fatal.  The loop is therefore started once, with a fixed refresh and shutdown wait.
+var (
+	dynOnce    sync.Once
+	dynCfg     *config.Config
+	dynWait    = 800 * time.Millisecond
+	dynRefresh = 25 * time.Millisecond
+)
+
+func dynFabio(t interface{ Fatalf(string, ...any) }) *config.Config {
+	dynOnce.Do(func() {
+		cfg, err := config.Load([]string{"fabio", "-proxy.shutdownwait", dynWait.String(), "-proxy.addr", fmt.Sprintf("127.0.0.1:0;proto=tcp-dynamic;refresh=%s", dynRefresh)}, nil)
+		if err != nil {
+			t.Fatalf("config: %v", err)
+		}
+		route.SetTable(route.Table{})
+		flex(startServers, cfg, metrics.Provider(metrics.DiscardProvider{}))
+		dynCfg = cfg
+	})
+	return dynCfg
+}
 
 // TestC18DynamicListener: shutdown with a proto=tcp-dynamic listener started by
 // main.go's own startServers.  Its loop opens a listener for every tcp route
@@ -38,14 +63,12 @@ func TestC18DynamicListener(t *testing.T) {
 		}
 	}()
 	hx.Check(t, hx.Scale(8, 60), func(t *rapid.T) {
-		W := time.Duration(rapid.IntRange(600, 1500).Draw(t, "W_ms")) * time.Millisecond
-		refresh := time.Duration(rapid.SampledFrom([]int{20, 50, 100}).Draw(t, "refresh_ms")) * time.Millisecond
+		cfg := dynFabio(t)
+		W, refresh := dynWait, dynRefresh
 		httpAddr, dynAddr := freeAddr(), freeAddr()
 		_, dynPort, _ := net.SplitHostPort(dynAddr)
-		cfg, err := config.Load([]string{"fabio", "-proxy.shutdownwait", W.String(), "-proxy.addr", fmt.Sprintf("%s;proto=http,127.0.0.1:0;proto=tcp-dynamic;refresh=%s", httpAddr, refresh)}, nil)
-		if err != nil {
-			t.Fatalf("config: %v", err)
-		}
+		// another listener of the same process (what startServers does for proto=http)
+		go proxy.ListenAndServeHTTP(config.Listen{Addr: httpAddr, Proto: "http"}, http.NotFoundHandler(), nil)
 		with := fmt.Sprintf("route add web / http://%s/\nroute add dyn :%s tcp://%s\n", echo.Addr(), dynPort, echo.Addr())
 		without := fmt.Sprintf("route add web / http://%s/\n", echo.Addr())
 		set := func(text string) {
@@ -56,7 +79,6 @@ func TestC18DynamicListener(t *testing.T) {
 			route.SetTable(tbl)
 		}
 		set(with)
-		flex(startServers, cfg, metrics.Provider(metrics.DiscardProvider{}))
 		dynListen := "127.0.0.1:" + dynPort
 		if !waitListening(httpAddr) || !waitListening(dynListen) {
 			t.Fatalf("VERIF-INCONCLUSIVE listeners did not come up (http %s, dynamic :%s)", httpAddr, dynPort)
